@@ -358,6 +358,17 @@ func userunfRun(c int, seed uint64) string {
 		case 12, 13, 14, 15, 16, 17:
 			// handled below: event streams delivered by reference, processing unfolders, histories
 		}
+		if seed%2 == 0 && target != nil {
+			// an Unfolder WITHOUT options sees the target's type first (its result does not matter):
+			// whatever that leaves behind in the process must not reach the Unfolder with the user unfolders
+			func() {
+				defer func() { recover() }()
+				plain := reflect.New(reflect.TypeOf(target).Elem())
+				if pu, err := gotype.NewUnfolder(plain.Interface()); err == nil && doc != nil {
+					gotype.Fold(doc, pu)
+				}
+			}()
+		}
 		u, err := gotype.NewUnfolder(nil, uuOptT, uuOptI, uuOptS, uuOptKV, uuOptP, uuOptO, uuOptTree, uuOptSeq)
 		if err != nil {
 			res = "U setuperr"
